@@ -238,13 +238,14 @@ func matchRoute(r route, raw []string) (map[string]string, bool) {
 
 // obs is what one request made observable.
 type obs struct {
-	UseTrace   []int    // Use-middleware indices in the order they were entered
-	BeforePats []string // ResolvePattern seen by Use-middleware i before next (ResolveBefore only)
-	AfterPats  []string // ResolvePattern seen by Use-middleware i after next returned
-	Calls      int      // number of handler invocations
-	Idx        int      // route index of the handler that ran
-	WrapPat    string   // ResolvePattern seen by the middleware wrapped around the handler
-	HandlerPat string   // ResolvePattern seen by the handler
+	UseTrace   []int               // Use-middleware indices in the order they were entered
+	BeforePats []string            // ResolvePattern seen by Use-middleware i before next (ResolveBefore only)
+	BeforeVars []map[string]string // Vars seen by Use-middleware i before next (ResolveBefore only)
+	AfterPats  []string            // ResolvePattern seen by Use-middleware i after next returned
+	Calls      int                 // number of handler invocations
+	Idx        int                 // route index of the handler that ran
+	WrapPat    string              // ResolvePattern seen by the middleware wrapped around the handler
+	HandlerPat string              // ResolvePattern seen by the handler
 	Vars       map[string]string
 }
 
@@ -267,6 +268,7 @@ func newHarness(cfg config) *harness {
 				o.UseTrace = append(o.UseTrace, i)
 				if cfg.ResolveBefore {
 					o.BeforePats[i] = h.mux.ResolvePattern(r)
+					o.BeforeVars[i] = h.mux.Vars(r)
 				}
 				next.ServeHTTP(w, r)
 				o.AfterPats[i] = h.mux.ResolvePattern(r)
@@ -296,7 +298,7 @@ func newHarness(cfg config) *harness {
 }
 
 func (h *harness) serve(rq *http.Request) (*obs, *httptest.ResponseRecorder) {
-	o := &obs{Idx: -1, BeforePats: make([]string, h.cfg.NUse), AfterPats: make([]string, h.cfg.NUse)}
+	o := &obs{Idx: -1, BeforePats: make([]string, h.cfg.NUse), BeforeVars: make([]map[string]string, h.cfg.NUse), AfterPats: make([]string, h.cfg.NUse)}
 	h.cur = o
 	rec := httptest.NewRecorder()
 	h.mux.ServeHTTP(rec, rq)
@@ -420,6 +422,25 @@ func verify(cfg config, rq *http.Request, o *obs, rec *httptest.ResponseRecorder
 				continue
 			}
 			return fmt.Sprintf("Vars[%q]=%q (present=%v) want %q (route %s, all vars %q)", k, g, ok, w, cfg.Routes[o.Idx], got), vd
+		}
+		// the same values for a Use-middleware that asks before routing (as
+		// goa's own Debug middleware does); when several patterns match, the
+		// pre-routing resolution may have picked another matching route
+		if cfg.ResolveBefore && len(vd.Matching) == 1 && !(hasEncodedSlash(esc) && excl(fResolveDecoded)) {
+			for i := 0; i < cfg.NUse; i++ {
+				bv := o.BeforeVars[i]
+				if len(bv) != len(want) {
+					return fmt.Sprintf("Vars in Use-middleware %d before next = %q, want %q (route %s)", i, bv, want, cfg.Routes[o.Idx]), vd
+				}
+				for _, k := range keys {
+					if g, ok := bv[k]; !ok || g != want[k] {
+						if ok && rq.URL.RawPath == "" && rePctHex.MatchString(want[k]) && excl(fDoubleDecode) {
+							continue
+						}
+						return fmt.Sprintf("Vars[%q] in Use-middleware %d before next = %q (present=%v), want %q (route %s)", k, i, g, ok, want[k], cfg.Routes[o.Idx]), vd
+					}
+				}
+			}
 		}
 		// reported pattern
 		wantPat := cfg.Routes[o.Idx].Pattern()
